@@ -1,6 +1,8 @@
 package main
 
 import (
+	"go/types"
+	"golang.org/x/tools/go/ssa"
 	"fmt"
 	"os"
 	"strings"
@@ -37,6 +39,31 @@ func debugTaint(p *Program, arg string) int {
 			}
 		}
 	}
+	}
+	return 0
+}
+
+// debugRange prints rangeAt for every integer value of functions matching arg.
+func debugRange(p *Program, arg string) int {
+	ff := buildFieldFacts(p, nil, nil)
+	rg := newRanger(p, ff)
+	for _, fn := range p.allRepoFuncs() {
+		if !strings.Contains(fn.String(), arg) {
+			continue
+		}
+		for _, b := range fn.Blocks {
+			for _, in := range b.Instrs {
+				v, ok := in.(ssa.Value)
+				if !ok {
+					continue
+				}
+				if bt, ok := v.Type().Underlying().(*types.Basic); !ok || bt.Info()&types.IsInteger == 0 {
+					continue
+				}
+				r := rg.rangeAt(v, b, 0)
+				fmt.Printf("b%d %s = %s : %s sym=%v %s%+d\n", b.Index, v.Name(), v.String(), r, r.hasSym, r.symKey, r.symOff)
+			}
+		}
 	}
 	return 0
 }
